@@ -95,3 +95,36 @@ contract(AFDS + "._annotate_target_subject", params={"a_triple": Triple}, self_t
         "same_except(%s, %s, str_prop)" % (F_NEW, F_OLD), "%s[%s][0] == old(%s[%s][0])" % (ID, SK, ID, SK), "same_except(%s, old(%s), %s)" % (ID, ID, SK)]}},
     props=["C01", "C09", "C14"],
     note="counting step of pass 2: exactly the kind of the object and the shapes of its classes gain one occurrence for (subject, property); nothing else changes")
+
+# ---- class level: (property, kind, cardinality) -> number of instances -----------------------------------------------------------------
+CD = "unboxed(self._c_shapes_dict)"
+F3 = Tup(Name, Name, Card)
+contract(AFDS + "._infer_valid_cardinalities", params={"a_property": Name, "a_cardinality": Int}, yields=Card, self_type=Strat,
+    requires=["a_cardinality >= 1"],
+    ensures=["implies(a_property == %s, len(result) == 1 and result[0] == card_int(1))" % PI,
+             "implies(a_property != %s, len(result) == 2 and result[0] == card_int(a_cardinality) and result[1] == '+')" % PI],
+    raises=[], props=["C01", "C03"],
+    note="'+' is always offered next to the exact cardinality (C03); for the instantiation property only cardinality 1 exists")
+def getc(d, p, k, c): return "ite(%s in %s and %s in %s[%s] and %s in %s[%s][%s], %s[%s][%s][%s], 0)" % (p, d, k, d, p, c, d, p, k, d, p, k, c)
+CE = "%s[a_class]" % CD
+contract(AFDS + "._introduce_needed_elements_in_shape_classes_dict", params={"a_class": Name, "a_feature_3tuple": F3}, self_type=Strat,
+    requires=["a_class in %s" % CD],
+    ensures=["a_class in %s" % CD, "a_feature_3tuple[0] in %s" % CE, "a_feature_3tuple[1] in %s[a_feature_3tuple[0]]" % CE,
+             "a_feature_3tuple[2] in %s[a_feature_3tuple[0]][a_feature_3tuple[1]]" % CE,
+             "forall(Name, Name, Card, lambda p, k, c: %s == old(%s))" % (getc(CE, "p", "k", "c"), getc(CE, "p", "k", "c")),
+             "same_except(%s, old(%s), a_class)" % (CD, CD)],
+    raises=[], modifies=["CBox.val[self._c_shapes_dict]"], props=["C01"], note="creates missing counters with value 0 and changes no existing number")
+contract(AFDS + "._annotate_direct_instance_features_for_class", params={"a_class": Name, "features_3tuple": List(F3)}, self_type=Strat,
+    requires=["a_class in %s" % CD,
+              "forall(Int, Int, lambda i, j: implies(0 <= i and i < j and j < len(features_3tuple), features_3tuple[i] != features_3tuple[j]))"],   # one entry per (p, kind, cardinality)
+    ensures=["a_class in %s" % CD,
+             "forall(Name, Name, Card, lambda p, k, c: %s == old(%s) + ite(exists(Int, lambda j: 0 <= j and j < len(features_3tuple) and features_3tuple[j][0] == p and features_3tuple[j][1] == k and features_3tuple[j][2] == c), 1, 0))"
+             % (getc(CE, "p", "k", "c"), getc(CE, "p", "k", "c")),
+             "same_except(%s, old(%s), a_class)" % (CD, CD)],
+    raises=[], modifies=["CBox.val[self._c_shapes_dict]"],
+    loops={0: {"invariant": ["a_class in %s" % CD,
+        "forall(Name, Name, Card, lambda p, k, c: %s == old(%s) + ite(exists(Int, lambda j: 0 <= j and j < _i0 and features_3tuple[j][0] == p and features_3tuple[j][1] == k and features_3tuple[j][2] == c), 1, 0))"
+        % (getc(CE, "p", "k", "c"), getc(CE, "p", "k", "c")),
+        "same_except(%s, old(%s), a_class)" % (CD, CD)]}},
+    props=["C01", "C09"],
+    note="one instance contributes exactly 1 to every (property, kind, cardinality) it exhibits in this class and to nothing else")
